@@ -129,6 +129,28 @@ func c02Tamperings() []tampering {
 			// commitment (the operation processor matches reveal values), so this must be ACCEPTED
 			s.Spec.Signer = gen.NewKey(h.r, h.keyType)
 		}},
+		{"key-substituted-resigned-signed-data-names-its-own-reveal", "urd", func(h *histCtx, s *opStep) {
+			// a foreign key signs, the request carries the honest (publicly known) reveal value, and the signed data
+			// additionally states a revealValue / reveal_value member matching the foreign key: still refused
+			honest := s.Spec.Signer
+			other := gen.NewKey(h.r, h.keyType)
+			s.Spec.Signer = other
+			s.Spec.Reveal = gen.S(honest.Reveal(h.code))
+			s.Spec.PayloadEdit = func(p map[string]interface{}) { p["revealValue"] = other.Reveal(h.code) }
+			s.Facts.ParseOK = false
+		}},
+		{"signed-data-carries-unused-members (valid)", "urd", func(h *histCtx, s *opStep) {
+			// members of the signed-data models that the protocol does not use for this type must not matter
+			s.Spec.PayloadEdit = func(p map[string]interface{}) {
+				if _, ok := p["revealValue"]; !ok {
+					p["revealValue"] = s.Spec.Signer.Reveal(h.code)
+				}
+			}
+		}},
+		{"alg-case-variant-resigned", "urd", func(h *histCtx, s *opStep) {
+			s.Spec.Headers = map[string]interface{}{"alg": strings.ToLower(s.Spec.Signer.Alg())}
+			s.Facts.ParseOK = false
+		}},
 		{"reveal-substituted", "urd", func(h *histCtx, s *opStep) {
 			s.Spec.Reveal = gen.S(gen.NewKey(h.r, h.keyType).Reveal(h.code))
 			s.Facts.ParseOK = false
